@@ -397,7 +397,9 @@ func (s *UtxoStore) removeRelevantCredit(tx mwdb.DBTransaction,
 					"index": cred.outPoint.Index,
 				})
 			k := canonicalOutPoint(&cred.outPoint.Hash, cred.outPoint.Index)
-			_ = deleteRawUnminedInput(nsUnminedInputs, k)
+			if err = deleteRawUnminedInput(nsUnminedInputs, k); err != nil {
+				return nil, false, err
+			}
 
 			if cred.flags.Spent {
 
@@ -462,7 +464,9 @@ func (s *UtxoStore) removeRelevantUnminedCredit(tx mwdb.DBTransaction,
 					"index": cred.outPoint.Index,
 				})
 			k := canonicalOutPoint(&cred.outPoint.Hash, cred.outPoint.Index)
-			_ = deleteRawUnminedInput(nsUnminedInputs, k)
+			if err = deleteRawUnminedInput(nsUnminedInputs, k); err != nil {
+				return nil, err
+			}
 			txs[cred.outPoint.Hash] = struct{}{}
 		}
 	}
